@@ -958,6 +958,70 @@ func (g *gen) systematic(i int) *Node {
 	return nil
 }
 
+// edgeProbe: a range function over ONE series (selected by all of its labels) evaluated
+// around an edge of that series - its first sample, the first sample after a gap longer
+// than the look-back window, a staleness marker, its last sample - so that the windows
+// hold the first / last few samples of a run (extrapolation limits, counters that start
+// near zero, look-back limits). The instant lies a few scrapes after the edge and the
+// range query walks across it in small steps.
+func (g *gen) edgeProbe(i int) (*Node, EvalParams) {
+	set := g.set
+	var s *SeriesData
+	if cs := set.byMetric["req_total"]; len(cs) > 0 && i%4 != 3 {
+		s = pick(g, cs)
+	} else {
+		s = pick(g, set.Series)
+	}
+	edges := []int64{s.T[0], s.T[len(s.T)-1]}
+	for j := 1; j < len(s.T); j++ {
+		if s.T[j]-s.T[j-1] > lookbackMs {
+			edges = append(edges, s.T[j], s.T[j], s.T[j-1])
+		}
+		if isStale(s.V[j]) {
+			edges = append(edges, s.T[j])
+		}
+	}
+	if i%2 == 0 {
+		edges = edges[:1] // the first sample
+	}
+	e := pick(g, edges)
+	fn := pick(g, []string{"rate", "increase", "rate", "increase", "delta", "irate", "deriv", "avg_over_time", "last_over_time", "count_over_time"})
+	if s.Kind != "counter" {
+		fn = pick(g, []string{"delta", "deriv", "avg_over_time", "last_over_time", "count_over_time", "max_over_time", "changes", "idelta"})
+	}
+	n := &Node{Kind: "rfn", Metric: s.Metric(), MKind: s.Kind, Fn: fn, Range: pick(g, []int64{60000, 90000, 120000, 180000, 300000})}
+	labels := make([]string, 0, len(s.Labels))
+	for k := range s.Labels {
+		if k != "__name__" {
+			labels = append(labels, k)
+		}
+	}
+	sort.Strings(labels)
+	for _, k := range labels {
+		m := Matcher{Label: k, Op: "=", Value: s.Labels[k]}
+		set.classify(n.Metric, &m)
+		n.Matchers = append(n.Matchers, m)
+	}
+	var p EvalParams
+	p.IClass = "after-series-edge"
+	p.Instant = e + int64(1+g.rng.IntN(int(n.Range/15000)))*15000
+	if g.rng.IntN(2) == 0 {
+		p.Instant += int64(g.rng.IntN(15000))
+	}
+	p.StepClass = "across-series-edge"
+	p.Step = pick(g, []int64{15000, 15000, 30000, 7500, 20000})
+	p.Start = e - n.Range/2
+	if g.rng.IntN(2) == 0 {
+		p.Start -= p.Start % gridMs
+	}
+	steps := 2 * n.Range / p.Step
+	if steps > 24 {
+		steps = 24
+	}
+	p.End = p.Start + steps*p.Step
+	return n, p
+}
+
 func (g *gen) next(i int) *Node {
 	if n := g.systematic(i); n != nil {
 		return n
